@@ -75,16 +75,6 @@ package redisemu
 //@ ensures [C11,C12] retry.after.register: gWaitRegistered ==> gTries >= 2
 //@ ensures [C12] immediate: !gWaitRegistered ==> gTries == 1
 
-//@ func clientState.capture
-//@ trusted spins until it owns the capture word; returns the connection's mailbox
-//@ requires cs != nil
-//@ modifies cs->blocked
-
-//@ func clientState.releaseCapture
-//@ trusted drains the mailbox and gives the capture word back
-//@ requires cs != nil
-//@ modifies cs->blocked cs->unblockPending
-
 //@ func dataStore.leaveListBlock
 //@ trusted takes the store lock, removes the signal from every queue and closes its channel
 //@ requires ds != nil
@@ -107,3 +97,29 @@ package redisemu
 //@ func time.Date
 //@ trusted
 //@ pure
+
+// C12: when a blocking command stops waiting, its connection is left ready to
+// be unblocked again: the capture word is back to "not captured" and the
+// "an unblock is already posted" flag is clear on every path (a stale flag
+// makes every later CLIENT UNBLOCK / kill / termination a no-op that still
+// reports success).
+//@ func clientState.setLock
+//@ trusted spins (compare-and-swap with back-off) until the capture word goes from `from` to `to`; other goroutines' transitions are not modelled
+//@ requires cs != nil
+//@ modifies cs->blocked
+//@ ensures cs.blocked == to
+
+//@ func clientState.releaseCapture
+//@ prop C12
+//@ safetyprop none
+//@ requires cs != nil
+//@ modifies cs->blocked cs->unblockPending
+//@ ensures [C12] released: cs.blocked == CS_UNCAPTURED
+//@ ensures [C12] pending.cleared: cs.unblockPending == 0
+
+//@ func clientState.capture
+//@ prop C12
+//@ safetyprop none
+//@ requires cs != nil
+//@ modifies cs->blocked
+//@ ensures [C12] captured: cs.blocked == CS_CAPTURED && result == cs.unblockCh
